@@ -12,9 +12,9 @@ theorem autoFlags_spec (sh : Shape) (fl : Flags) (m : Modes) (f : Flag) :
     (f ∈ fl → f ∈ autoFlags sh fl m) ∧ (f ∈ autoFlags sh fl m → f ∈ fl ∨ f = .tableName) := by
   unfold autoFlags
   simp only
-  split
-  · split <;> simp_all
-  · simp_all
+  constructor
+  · intro hf; (repeat' split) <;> simp_all
+  · intro hf; (repeat' split at hf) <;> simp_all
 
 /-- the modes picked: no enabled feature stays in auto, explicit modes are kept, the mode picked for `iter` is legal -/
 theorem autoModes_spec (sh : Shape) (fl : Flags) (m : Modes) :
